@@ -347,82 +347,82 @@ A profile with a depression, base level at node 0, `nextUp = (· + 1)` over `Nat
 `f = [0, 3, 1, 2, 5]`, spill levels `[0, 3, 3, 3, 5]`. -/
 section Examples
 
-def exOrd : Fs.UB.Ord Nat := ⟨fun a b => decide (a < b), (· + 1)⟩
+def sp_exOrd : Fs.UB.Ord Nat := ⟨fun a b => decide (a < b), (· + 1)⟩
 
-theorem exLaws : Laws exOrd where
-  irrefl a := by simp [exOrd]
-  trans a b c h1 h2 := by simp only [exOrd, decide_eq_true_eq] at *; omega
-  antisymm a b h1 h2 := by simp only [exOrd, decide_eq_false_iff_not] at *; omega
-  next_gt x := by simp [exOrd]
+theorem sp_exLaws : Laws sp_exOrd where
+  irrefl a := by simp [sp_exOrd]
+  trans a b c h1 h2 := by simp only [sp_exOrd, decide_eq_true_eq] at *; omega
+  antisymm a b h1 h2 := by simp only [sp_exOrd, decide_eq_false_iff_not] at *; omega
+  next_gt x := by simp [sp_exOrd]
   next_mono a b h := by
-    simp only [Fs.UB.Ord.le, exOrd, Bool.not_eq_true', decide_eq_false_iff_not] at *; omega
+    simp only [Fs.UB.Ord.le, sp_exOrd, Bool.not_eq_true', decide_eq_false_iff_not] at *; omega
 
 /-- chain `0 - 1 - … - (n-1)` -/
-def exNb (n : Nat) (i : Nat) : List Nat :=
+def sp_exNb (n : Nat) (i : Nat) : List Nat :=
   (if 0 < i then [i - 1] else []) ++ (if i + 1 < n then [i + 1] else [])
 
-def exSeed (i : Nat) : Bool := i == 0
-def exF (i : Nat) : Nat := [0, 3, 1, 2, 5].getD i 0
-def exBeq (a b : Nat) : Bool := a == b
-def exZ (l : List Nat) (i : Nat) : Nat := l.getD i 0
+def sp_exSeed (i : Nat) : Bool := i == 0
+def sp_exF (i : Nat) : Nat := [0, 3, 1, 2, 5].getD i 0
+def sp_exBeq (a b : Nat) : Bool := a == b
+def sp_exZ (l : List Nat) (i : Nat) : Nat := l.getD i 0
 
-example : (spillTable exOrd 5 (exNb 5) exSeed (fun _ => false) exF).toList =
+example : (spillTable sp_exOrd 5 (sp_exNb 5) sp_exSeed (fun _ => false) sp_exF).toList =
     [some 0, some 3, some 3, some 3, some 5] := by decide +kernel
 
 /-- the start table is not stable: the stability check is not vacuous -/
-example : spillStable exOrd 5 (exNb 5) exSeed (fun _ => false) exF
-    (spillInit 5 exSeed (fun _ => false) exF) = false := by decide +kernel
+example : spillStable sp_exOrd 5 (sp_exNb 5) sp_exSeed (fun _ => false) sp_exF
+    (spillInit 5 sp_exSeed (fun _ => false) sp_exF) = false := by decide +kernel
 
-example : nbSymOk 5 (exNb 5) = true := by decide +kernel
+example : nbSymOk 5 (sp_exNb 5) = true := by decide +kernel
 
 /-- passes: the depression is filled with a slope, 2 increments above the spill level at most -/
-example : checkC02 exOrd 5 (exNb 5) exSeed (fun _ => false) exBeq exF (exZ [0, 3, 4, 5, 6]) 5 = true := by
+example : checkC02 sp_exOrd 5 (sp_exNb 5) sp_exSeed (fun _ => false) sp_exBeq sp_exF (sp_exZ [0, 3, 4, 5, 6]) 5 = true := by
   decide +kernel
 /-- passes with `k = 0`: exact filling -/
-example : checkC02 exOrd 5 (exNb 5) exSeed (fun _ => false) exBeq exF (exZ [0, 3, 3, 3, 5]) 0 = true := by
+example : checkC02 sp_exOrd 5 (sp_exNb 5) sp_exSeed (fun _ => false) sp_exBeq sp_exF (sp_exZ [0, 3, 3, 3, 5]) 0 = true := by
   decide +kernel
 /-- fails (d): node 3 is 2 increments above its spill level, `k = 1` -/
-example : checkC02 exOrd 5 (exNb 5) exSeed (fun _ => false) exBeq exF (exZ [0, 3, 4, 5, 6]) 1 = false := by
+example : checkC02 sp_exOrd 5 (sp_exNb 5) sp_exSeed (fun _ => false) sp_exBeq sp_exF (sp_exZ [0, 3, 4, 5, 6]) 1 = false := by
   decide +kernel
 /-- fails (a) (and with it (c)): node 4 is below its input -/
-example : checkC02 exOrd 5 (exNb 5) exSeed (fun _ => false) exBeq exF (exZ [0, 3, 3, 3, 4]) 5 = false := by
+example : checkC02 sp_exOrd 5 (sp_exNb 5) sp_exSeed (fun _ => false) sp_exBeq sp_exF (sp_exZ [0, 3, 3, 3, 4]) 5 = false := by
   decide +kernel
 /-- fails (b) only: the base level was raised -/
-example : checkC02 exOrd 5 (exNb 5) exSeed (fun _ => false) exBeq exF (exZ [1, 3, 3, 3, 5]) 5 = false := by
+example : checkC02 sp_exOrd 5 (sp_exNb 5) sp_exSeed (fun _ => false) sp_exBeq sp_exF (sp_exZ [1, 3, 3, 3, 5]) 5 = false := by
   decide +kernel
 /-- fails (c) only: node 2 is above its input but still below the spill level (a pit remains) -/
-example : checkC02 exOrd 5 (exNb 5) exSeed (fun _ => false) exBeq exF (exZ [0, 3, 2, 3, 5]) 5 = false := by
+example : checkC02 sp_exOrd 5 (sp_exNb 5) sp_exSeed (fun _ => false) sp_exBeq sp_exF (sp_exZ [0, 3, 2, 3, 5]) 5 = false := by
   decide +kernel
 /-- the unchanged input fails (c): the depression was not resolved -/
-example : checkC02 exOrd 5 (exNb 5) exSeed (fun _ => false) exBeq exF exF 5 = false := by
+example : checkC02 sp_exOrd 5 (sp_exNb 5) sp_exSeed (fun _ => false) sp_exBeq sp_exF sp_exF 5 = false := by
   decide +kernel
 
 /-! with a masked node (5) and a node behind it that is not connected to a base level (6) -/
 
-def exMask (i : Nat) : Bool := i == 5
-def exF7 (i : Nat) : Nat := [0, 3, 1, 2, 5, 9, 4].getD i 0
+def sp_exMask (i : Nat) : Bool := i == 5
+def sp_exF7 (i : Nat) : Nat := [0, 3, 1, 2, 5, 9, 4].getD i 0
 
-example : (spillTable exOrd 7 (exNb 7) exSeed exMask exF7).toList =
+example : (spillTable sp_exOrd 7 (sp_exNb 7) sp_exSeed sp_exMask sp_exF7).toList =
     [some 0, some 3, some 3, some 3, some 5, none, none] := by decide +kernel
 /-- passes: nothing is required of the unconnected node 6 beyond (a) -/
-example : checkC02 exOrd 7 (exNb 7) exSeed exMask exBeq exF7 (exZ [0, 3, 3, 4, 5, 9, 8]) 7 = true := by
+example : checkC02 sp_exOrd 7 (sp_exNb 7) sp_exSeed sp_exMask sp_exBeq sp_exF7 (sp_exZ [0, 3, 3, 4, 5, 9, 8]) 7 = true := by
   decide +kernel
 /-- fails (b) only: the masked node was changed -/
-example : checkC02 exOrd 7 (exNb 7) exSeed exMask exBeq exF7 (exZ [0, 3, 3, 4, 5, 10, 8]) 7 = false := by
+example : checkC02 sp_exOrd 7 (sp_exNb 7) sp_exSeed sp_exMask sp_exBeq sp_exF7 (sp_exZ [0, 3, 3, 4, 5, 10, 8]) 7 = false := by
   decide +kernel
 
 /-- the hypotheses of `checkC02_sound` are satisfiable on the 5-node profile, and its conclusion
 there: node 3 is connected, so its returned elevation 5 dominates a path from the base level and is
 at most 5 increments above the bound 3 of the path `[0, 1, 2, 3]` -/
 example :
-    (∃ q, Path (exNb 5) exSeed (fun _ => false) q 3 ∧ Bounded exOrd exF q 5) ∧
-    exOrd.le 5 (pw exOrd 5 3) = true := by
-  have hs : ∀ b, exSeed b = true → b < 5 := by
-    intro b hb; simp only [exSeed, beq_iff_eq] at hb; omega
-  have h := (checkC02_sound' exLaws (n := 5) (nb := exNb 5) (seed := exSeed) (mask := fun _ => false)
-    (beq := exBeq) (f := exF) (z' := exZ [0, 3, 4, 5, 6]) (k := 5) (by decide +kernel) hs
+    (∃ q, Path (sp_exNb 5) sp_exSeed (fun _ => false) q 3 ∧ Bounded sp_exOrd sp_exF q 5) ∧
+    sp_exOrd.le 5 (pw sp_exOrd 5 3) = true := by
+  have hs : ∀ b, sp_exSeed b = true → b < 5 := by
+    intro b hb; simp only [sp_exSeed, beq_iff_eq] at hb; omega
+  have h := (checkC02_sound' sp_exLaws (n := 5) (nb := sp_exNb 5) (seed := sp_exSeed) (mask := fun _ => false)
+    (beq := sp_exBeq) (f := sp_exF) (z' := sp_exZ [0, 3, 4, 5, 6]) (k := 5) (by decide +kernel) hs
     (by decide +kernel)).2.2
-  have p0 : Path (exNb 5) exSeed (fun _ => false) [0] 0 := Path.seed 0 rfl rfl
+  have p0 : Path (sp_exNb 5) sp_exSeed (fun _ => false) [0] 0 := Path.seed 0 rfl rfl
   have p1 := Path.step [0] 0 1 p0 (by decide) rfl
   have p2 := Path.step _ 1 2 p1 (by decide) rfl
   have p3 := Path.step _ 2 3 p2 (by decide) rfl
